@@ -239,7 +239,28 @@ func c12(r *engine.Report, p *engine.Program) {
 
 	// R6 who-may
 	checkCallers(r, p, "R6-who-may", "(*netceptor.Netceptor).forwardMessage", "(*netceptor.Netceptor).handleMessageData")
-	checkCallers(r, p, "R6-who-may", "(*netceptor.Netceptor).dispatchReservedService", "(*netceptor.Netceptor).handleMessageData")
+	// reserved services are dispatched from handleMessageData (or its private helper) only: nobody
+	// else looks a handler up in the table
+	if rs := p.Field("netceptor", "Netceptor", "reservedServices"); rs != nil {
+		var extra []string
+		n := 0
+		for _, fn := range p.Funcs() {
+			if engine.IsMock(fn) {
+				continue
+			}
+			if k := len(reservedHandlerCallsIn(p, fn)); k > 0 {
+				n += k
+				if fn != hmd && privateHelperOf(p, fn, map[string]bool{engine.FuncName(hmd): true}) == "" {
+					extra = append(extra, engine.FuncName(fn))
+				}
+			}
+		}
+		r.Check("R6-who-may", "reservedServices: handlers are called by handleMessageData only", hmd.Pos(), n > 0 && len(extra) == 0 && len(reservedDispatchSites(p, hmd)) > 0,
+			fmt.Sprintf("%d call(s) of a handler looked up in the table, all in handleMessageData or its private helper", n),
+			fmt.Sprintf("a reserved-service handler is called from %v (or not from handleMessageData at all): a reserved service can be reached without the firewall decision", extra))
+	} else {
+		r.Broken("field Netceptor.reservedServices not found")
+	}
 	checkCallers(r, p, "R6-who-may", "(*netceptor.Netceptor).handleMessageData", "(*netceptor.Netceptor).SendMessageWithHopsToLive", "(*netceptor.Netceptor).runProtocol")
 	recvChan := p.Field("netceptor", "PacketConn", "recvChan")
 	if recvChan == nil {
